@@ -161,15 +161,19 @@ def blockValid (g : List (List Mat)) : Bool :=
       (r = 0 || decide (B.cols = ((g.getD (r - 1) []).getD c ⟨0, 0, []⟩).cols)) &&
       (c = 0 || decide (B.rows = ((g.getD r []).getD (c - 1) ⟨0, 0, []⟩).rows))
 
-/-- `Matrix(std::vector<std::vector<Matrix>>)`.  A grid that is empty, has an empty block row or
-    is ragged makes the C++ index out of range (`block_matrices[0]`, `[row][0]`,
-    `[row-1][col]`): `undef`.  For a rectangular grid: validity test, then every block is copied
-    to its offset; since all blocks of a block row have the same number of rows and all blocks of
-    a block column the same number of columns, the copies tile the result, so entry `(i,j)` is
-    the entry of the block that `locate` finds. -/
-def blockCtor (g : List (List Mat)) : Except Err Mat :=
+/-- the layout test of the block constructor (fix f27d82c): at least one row of blocks, and every
+    row holds the same non-zero number of blocks -/
+def blockLayoutOk (g : List (List Mat)) : Bool :=
   let nc := (g.headD []).length
-  if g.length = 0 ∨ nc = 0 ∨ ¬ g.all (fun r => decide (r.length = nc)) then .error .undef
+  decide (g.length ≠ 0) && decide (nc ≠ 0) && g.all (fun r => decide (r.length = nc))
+
+/-- `Matrix(std::vector<std::vector<Matrix>>)`.  First the layout test (an empty or ragged list of
+    blocks is rejected with a diagnostic since f27d82c), then the dimension test, then every block
+    is copied to its offset; since all blocks of a block row have the same number of rows and all
+    blocks of a block column the same number of columns, the copies tile the result, so entry
+    `(i,j)` is the entry of the block that `locate` finds. -/
+def blockCtor (g : List (List Mat)) : Except Err Mat :=
+  if !blockLayoutOk g then .error .diag
   else if !blockValid g then .error .diag
   else
     let rs := g.map (fun r => (r.headD ⟨0, 0, []⟩).rows)
